@@ -212,7 +212,7 @@ def fam_lower_loop(ctx):
 
     rng = ctx.rng
     reqs, code, inputs, nontriv = [], [], [], []
-    for _ in range(700 if ctx.quick else 12000):
+    for _ in range(3000 if ctx.quick else 40000):
         ncls = rng.randint(2, 5)
         rules = _random_rules(rng, ncls)
         rtext = ";".join(f"{c}:{p}" for c, p in sorted(rules.items())) or "-"
@@ -314,7 +314,7 @@ def fam_lowers_observed(ctx):
     names, table, ranks, notes = lowers_table()
     idx_of = {n: i for i, n in enumerate(names)}
     store = collections.Counter()
-    progs, idx = _program_slice(ctx, 350)
+    progs, idx = _program_slice(ctx, 220)
     nprog = 0
     with observed_lowers(store):
         for i in idx:
@@ -506,23 +506,46 @@ def run_program_case(case):
     return None, stats
 
 
+def stable_partgetter_names():
+    """harness artifact: e2e._PartGetter instances have no __name__, so dask labels a FromMap with str(func),
+    which embeds the object's address and differs between processes; give the instances a name."""
+    if getattr(e2e._PartGetter, "_c19_named", False):
+        return
+    orig = e2e._PartGetter.__init__
+
+    def __init__(self, parts):
+        orig(self, parts)
+        self.__name__ = "partgetter"
+
+    e2e._PartGetter.__init__ = __init__
+    e2e._PartGetter._c19_named = True
+
+
 _CHILD = r"""
 import sys, json
 sys.path.insert(0, {root!r})
 import warnings; warnings.filterwarnings("ignore")
 import dask; dask.config.set(scheduler="sync")
 from harness import programs
+from harness.props import c19
+c19.stable_partgetter_names()
 cases = json.loads(sys.stdin.read())
 progs = {{p.name: p for p in programs.valid_programs(2)}}
 out = {{}}
 for c in cases:
     try:
-        p = progs[c["program"]]
-        r = p.fn(programs.dask_env(c.get("cutsL"), c.get("cutsR"), c.get("known", True)))
+        if c.get("query"):
+            from harness.props import c14
+            r = dict(c14.real_queries())[c["query"]]()
+            key = c["query"]
+        else:
+            p = progs[c["program"]]
+            r = p.fn(programs.dask_env(c.get("cutsL"), c.get("cutsR"), c.get("known", True)))
+            key = c["program"]
         if hasattr(r, "expr"):
-            out[c["program"]] = [r.expr._name, r.expr.optimize()._name]
+            out[key] = [r.expr._name, r.expr.optimize(fuse=False)._name, r.expr.optimize()._name]
     except Exception as e:
-        out[c["program"]] = ["ERR", type(e).__name__]
+        out[c.get("query") or c["program"]] = ["ERR", type(e).__name__, ""]
 print(json.dumps(out))
 """
 
@@ -538,32 +561,38 @@ def names_in_fresh_process(cases, hashseed):
     return json.loads(p.stdout.strip().splitlines()[-1])
 
 
-def cross_process_failures(cases, seeds=(1, 4242)):
-    """optimize(q)._name for the same query in fresh interpreters with different PYTHONHASHSEED"""
+def cross_process_failures(cases, seeds=(1, 2)):
+    """names of the same query in fresh interpreters with different PYTHONHASHSEED:
+    -> ([(case, stage, message)], number of queries compared)"""
     runs = [names_in_fresh_process(cases, s) for s in seeds]
     fails = []
+    compared = 0
     for c in cases:
-        nm = c["program"]
+        nm = c.get("query") or c["program"]
         vals = [r.get(nm) for r in runs]
         if any(v is None or v[0] == "ERR" for v in vals):
             continue
         if len({v[0] for v in vals}) != 1:
-            continue  # the query itself is not deterministically named (user function without stable token)
+            continue  # the query itself has no process-independent name (a user function without a stable token)
+        compared += 1
         if len({v[1] for v in vals}) != 1:
-            fails.append((c, f"optimize(q)._name depends on PYTHONHASHSEED: " + " vs ".join(
+            fails.append((c, "simplified-physical", "optimize(q, fuse=False)._name depends on PYTHONHASHSEED: " + " vs ".join(
                 f"seed {s}: {v[1]}" for s, v in zip(seeds, vals))))
-    return fails, sum(1 for c in cases if all(r.get(c["program"], ["ERR"])[0] != "ERR" for r in runs))
+        elif len({v[2] for v in vals}) != 1:
+            fails.append((c, "fused", "optimize(q)._name depends on PYTHONHASHSEED (the unfused plan's name does not): " + " vs ".join(
+                f"seed {s}: {v[2]}" for s, v in zip(seeds, vals))))
+    return fails, compared
 
 
 def run_case(case):
     if case["kind"] == "xproc":
-        fails, _ = cross_process_failures([case["case"]], tuple(case.get("seeds", (1, 4242))))
-        return (fails[0][1] if fails else None), None
+        fails, _ = cross_process_failures([case["case"]], tuple(case.get("seeds", (1, 2, 3))))
+        return (fails[0][2] if fails else None), None
     return run_program_case(case)
 
 
 def _cases(ctx, broken):
-    progs, idx = _program_slice(ctx, 300)
+    progs, idx = _program_slice(ctx, 200)
     layouts = [([0, 3, 6, 8], [0, 2, 6]), ([0, 8], [0, 6]), ([0, 2, 4, 6, 8], [0, 2, 4, 6])]
     cases = []
     for j, i in enumerate(idx):
@@ -577,6 +606,7 @@ def _cases(ctx, broken):
 
 def support(ctx, broken):
     sup = Support()
+    stable_partgetter_names()
     cases = _cases(ctx, broken)
     hist = {k: collections.Counter() for k in BUDGET}
     same_twice = collections.Counter()
@@ -597,14 +627,22 @@ def support(ctx, broken):
             sup.failures.append(Failure(sig={"kind": "program", "what": msg.split(":")[0][:50]}, case=case, detail=msg))
             if len(sup.failures) >= 5:
                 break
-    # cross-process names (one batch per seed)
-    xcases = [c for c in cases if c["cutsL"] == [0, 3, 6, 8]][: (120 if ctx.quick else 100000)]
+    # cross-process names (one batch per seed): a slice of the programs plus the fusion corpus
+    from harness.props import c14
+
+    xcases = [c for c in cases if c["cutsL"] == [0, 3, 6, 8]][: (60 if ctx.quick else 100000)]
+    xcases += [{"kind": "query", "query": name} for name, _ in c14.real_queries() if "/n2/" in name or not ctx.quick]
     try:
         fails, n = cross_process_failures(xcases)
         sup.executed += n
-        sup.distribution["cross_process_queries"] = n
-        for c, msg in fails[:5]:
-            sup.failures.append(Failure(sig={"kind": "xproc", "what": "optimize(q)._name depends on PYTHONHASHSEED"},
+        sup.distribution["cross_process_queries_compared"] = n
+        sup.distribution["cross_process_name_differs"] = len(fails)
+        seen_stage = set()
+        for c, stage, msg in fails:
+            if stage in seen_stage:
+                continue
+            seen_stage.add(stage)
+            sup.failures.append(Failure(sig={"kind": "xproc", "what": "optimize(q)._name depends on PYTHONHASHSEED", "stage": stage},
                                         case={"kind": "xproc", "case": c}, detail=msg))
     except Exception as e:  # noqa: BLE001
         sup.failures.append(Failure(sig={"kind": "xproc", "what": "child process failed"}, case={"kind": "xproc", "case": xcases[0]},
